@@ -63,6 +63,9 @@ def oracle(spec: dict, res: dict, failing: bool):
                 yield "failure:steps-not-terminated-when-run-raises", f"steps {unterm_exit[:8]} not terminated when run() raised (not the _cancel path)"
         if unterm_late and not (cancel_path and unterm_exit):
             yield "failure:steps-never-terminated", f"steps {unterm_late[:8]} still not terminated after the executor raised and the loop settled"
+        for nid, name, st in downstream_statuses(spec, res):
+            yield "failure:step-downstream-of-the-failed-step-ends-" + str(st), (
+                f"step {name} consumes (transitively) the outputs of the failed step but ended {st}")
         if res.get("pending"):
             if cancel_path and unterm_exit:
                 yield KNOWN_CANCEL, f"tasks still pending after run() raised: {res['pending'][:6]}"
@@ -105,6 +108,32 @@ FAIL_CORPUS = [
 ]
 
 
+def downstream_statuses(spec: dict, res: dict):
+    """C04.downstream_of_failed_never_good on the real run: (node id, step name, status) of every node that lies downstream
+    of the failing step along a path WITHOUT combinator / loop nodes and ended COMPLETED (or with a non-terminal status). (A CombinatorStep
+    resets its status to COMPLETED when a data token arrives after a FAILED termination, so the status of a combinator
+    downstream of a failure depends on the arrival order: those nodes and everything behind them are left out.)"""
+    f = _fail_node(spec)
+    if f is None or f >= len(spec["nodes"]):
+        return []
+    tainted = set(spec["nodes"][f]["outs"])
+    bad = []
+    for n in spec["nodes"][f + 1:]:
+        if not any(p in tainted for p in n["ins"]):
+            continue
+        if n["kind"] in ("dot", "cart", "loop"):
+            continue
+        tainted.update(n["outs"])
+        name = f"/n{n['id']}-{n['kind']}"
+        st = res.get("steps", {}).get(name, {}).get("status")
+        # FAILED / CANCELLED as in the model; SKIPPED happens in the real engine when close() (not atomic: one terminate()
+        # task per step) has put a CANCELLED termination token that a still running consumer with empty outputs reads
+        # before it is cancelled itself: `_get_status(CANCELLED)` is SKIPPED on empty outputs. Never COMPLETED.
+        if st not in ("FAILED", "CANCELLED", "SKIPPED"):
+            bad.append((n["id"], name, st))
+    return bad
+
+
 def _fail_node(spec: dict):
     """index of the step that fails: the transformer that raises, or the scatter fed with a non-list (escape mode)"""
     for nd in spec["nodes"]:
@@ -117,8 +146,9 @@ def _fail_node(spec: dict):
 class C04(Property):
     pid = "C04"
     title = "Every well-formed workflow terminates, and failures terminate every step"
-    lean_targets = ["SFV.Props.C04", "SFV.Props.C04Loop", "SFV.Props.C04Guards"]
-    props_files = ["SFV/Props/C04.lean", "SFV/Props/C04Loop.lean", "SFV/Props/C04Guards.lean"]
+    lean_targets = ["SFV.Props.C04", "SFV.Props.C04Loop", "SFV.Props.C04Guards", "SFV.Props.C04Status", "SFV.Props.C04LoopNet"]
+    props_files = ["SFV/Props/C04.lean", "SFV/Props/C04Loop.lean", "SFV/Props/C04Guards.lean", "SFV/Props/C04Status.lean",
+                   "SFV/Props/C04LoopNet.lean"]
     drivers = ["Drivers/Net.lean"]
     translators = [stepguards.generate]
     rule = ("random well-formed DAG workflows (sfv.rt.wfgen: 2..12 nodes from the real step classes — transformers, scatter/gather "
@@ -241,6 +271,25 @@ class C04(Property):
                     lines.append("loopcomb g " + " ".join(streams))
                     metas.append(("loopcomb", run_spec, failing, [dict(r, _lc=(lname, lc))]))
                     ctx.count("loop-combinator-runs")
+            # K for the loop sub-network model (LoopNet): per loop instance, body executions and loop output
+            if not failing:
+                for nd in run_spec["nodes"]:
+                    if nd["kind"] != "loop":
+                        continue
+                    for r in runs:
+                        if r["outcome"]["kind"] != "return":
+                            continue
+                        lc = r.get("loop_combinators", {}).get(f"/n{nd['id']}-loop-loop-combinator")
+                        if not lc:
+                            continue
+                        stream = lc["inputs"]["counter"]["stream"]
+                        for tag, c in r["ports"][str(nd["ins"][0])].items():
+                            l = r["ports"][str(nd["ins"][1])].get(tag)
+                            bodies = sum(1 for t in stream if t.startswith("d" + tag + ".") and t.count(".") == tag.count(".") + 1)
+                            out = r["ports"][str(nd["outs"][0])].get(tag)
+                            lines.append(f"loopnet {nd['k']} {c} {l}")
+                            metas.append(("loopnet", run_spec, failing, [dict(r, _ln=(nd["id"], tag, bodies, out))]))
+                            ctx.count("loop-instances")
             words = wfcheck.spec_words(run_spec)
             lines.append(f"exec {words}" + (f" fail={fail_node}" if failing else ""))
             metas.append(("outcome", run_spec, failing, runs))
@@ -250,7 +299,14 @@ class C04(Property):
         got = ctx.lean("Drivers/Net.lean", lines)
         for g, (what, spec, failing, runs) in zip(got, metas):
             for r in runs:
-                if r["outcome"]["kind"] == "harness-error" or (r["outcome"]["kind"] == "hang" and what != "loopcomb"):
+                if r["outcome"]["kind"] == "harness-error" or (r["outcome"]["kind"] == "hang" and what not in ("loopcomb", "loopnet")):
+                    continue
+                if what == "loopnet":
+                    nid, tag, bodies, out = r["_ln"]
+                    real = f"bodies={bodies};out={out}"
+                    if real != g:
+                        ctx.disagree("loop sub-network (LoopNet) vs real loop", f"loop node {nid} instance {tag}: real {real}, model {g}",
+                                     {"spec": spec, "failing": failing, "seed": r["seed"], "shuffle": r["shuffle"]})
                     continue
                 if what == "loopcomb":
                     lname, lc = r["_lc"]
